@@ -111,7 +111,7 @@ theorem set_inj {l : List Op} {i : Nat} {y a b : Op} (h : l[i]? = some y)
 theorem startOp_ops {s s' : State} {sp : Spec} (hs : startOp s sp = some s') :
     ∃ x, s'.ops = s.ops ++ [x] ∧
       (x = .get (match sp with | .get t => t | _ => {}) .enter ∨ (∃ o, x = .ret .users o) ∨
-       (∃ o, x = .take .users o false) ∨ (∃ n c, x = .resize n c .lock 0) ∨
+       (∃ o, x = .take .users o false) ∨ (∃ n c, x = .resize n c .enter 0) ∨
        (∃ k, x = .retain k) ∨ x = .status) := by
   cases sp
   all_goals simp only [startOp] at hs
